@@ -258,6 +258,26 @@ theorem cloopLoop_frame (run : St → Res) (hrun : FrameOK run) (ls : CLoopSpec)
               | stop st => rfl
               | next st => rfl
 
+theorem elseSeq_frame : ∀ (runs : List (St → Res)), (∀ r ∈ runs, FrameOK r) → FrameOK (elseSeq runs)
+  | [], _ => by intro s h; unfold elseSeq; exact ⟨h, fun _ _ _ => rfl⟩
+  | r :: rest, h => by
+    have hr := h r (List.mem_cons_self)
+    have ih := elseSeq_frame rest (fun r' hr' => h r' (List.mem_cons_of_mem _ hr'))
+    intro s hs
+    obtain ⟨r1, r2⟩ := hr s hs
+    unfold elseSeq
+    constructor
+    · cases hx : (r s).err with
+      | some e => simp only; exact r1
+      | none => simp only; exact (ih { (r s).st with c := { (r s).st.c with err := none } } r1).1
+    · intro pl po k
+      rw [r2]
+      cases hx : (r s).err with
+      | some e => simp only [Res.pre, hx]
+      | none =>
+        simp only [Res.pre, hx]
+        exact (ih { (r s).st with c := { (r s).st.c with err := none } } r1).2 pl po k
+
 theorem elseRun_frame (run : St → Res) (hrun : FrameOK run) (ne : Bool) : FrameOK (elseRun run ne) := by
   intro s h
   obtain ⟨r1, r2⟩ := hrun s h
@@ -528,27 +548,27 @@ theorem interp_frame (reg : Registry) : ∀ f : Nat,
         exact ⟨by rw [writeNode]; exact a, fun pl po k => by rw [writeNode, writeNode]; exact b pl po k⟩
       | cloop ls child =>
         have key : FrameOK (loopNode (cloopWith (fun st => writeSeq reg f (loopParts child).1 st)
-            ((loopParts child).2.map (fun e st => elseRun (fun st' => writeSeq reg f e st') (!e.isEmpty) st)) f ls)) := by
+            ((loopParts child).2.map (fun e st => elseRun (elseSeq (e.map (fun n st' => writeNode reg f n st'))) (!e.isEmpty) st)) f ls)) := by
           apply loopNode_frame
           apply cloopWith_frame
           · exact ihS _
           · intro re hre
             cases hp : (loopParts child).2 with
             | none => simp [hp] at hre
-            | some e => simp [hp] at hre; subst hre; exact elseRun_frame _ (ihS _) _
+            | some e => simp [hp] at hre; subst hre; exact elseRun_frame _ (elseSeq_frame _ (by intro r hr; simp only [List.mem_map] at hr; obtain ⟨n, _, rfl⟩ := hr; exact ihN n)) _
         intro s h
         obtain ⟨a, b⟩ := key s h
         exact ⟨by rw [writeNode]; exact a, fun pl po k => by rw [writeNode, writeNode]; exact b pl po k⟩
       | rloop ls child =>
         have key : FrameOK (loopNode (rloopWith (fun st => writeSeq reg f (loopParts child).1 st)
-            ((loopParts child).2.map (fun e st => elseRun (fun st' => writeSeq reg f e st') (!e.isEmpty) st)) ls)) := by
+            ((loopParts child).2.map (fun e st => elseRun (elseSeq (e.map (fun n st' => writeNode reg f n st'))) (!e.isEmpty) st)) ls)) := by
           apply loopNode_frame
           apply rloopWith_frame
           · exact ihS _
           · intro re hre
             cases hp : (loopParts child).2 with
             | none => simp [hp] at hre
-            | some e => simp [hp] at hre; subst hre; exact elseRun_frame _ (ihS _) _
+            | some e => simp [hp] at hre; subst hre; exact elseRun_frame _ (elseSeq_frame _ (by intro r hr; simp only [List.mem_map] at hr; obtain ⟨n, _, rfl⟩ := hr; exact ihN n)) _
         intro s h
         obtain ⟨a, b⟩ := key s h
         exact ⟨by rw [writeNode]; exact a, fun pl po k => by rw [writeNode, writeNode]; exact b pl po k⟩
